@@ -1201,21 +1201,59 @@ pub mod strat {
                 3 => Just(vec![0x30u8]),
                 3 => prop::collection::vec(any::<u8>(), 1..6),
                 1 => prop::collection::vec(any::<u8>(), 91..=91),
-            ],
+            ]
+            .prop_flat_map(|v| {
+                // rarely a key of 250..262, 1020..1030 or up to 5000 octets instead
+                prop_oneof![
+                    60 => Just(v),
+                    1 => (250usize..262, any::<u8>()).prop_map(|(n, b)| (0..n).map(|i| b.wrapping_add(i as u8)).collect::<Vec<u8>>()),
+                    1 => (1020usize..1030, any::<u8>()).prop_map(|(n, b)| (0..n).map(|i| b.wrapping_add(i as u8)).collect::<Vec<u8>>()),
+                    1 => (1030usize..5000, any::<u8>()).prop_map(|(n, b)| (0..n).map(|i| b.wrapping_add(i as u8)).collect::<Vec<u8>>()),
+                ]
+            }),
         )
             .prop_map(|(k, asn, info)| Item::Key { ski: [k.wrapping_mul(0x55) ^ 0xA0; 20], asn, info }.canonical());
-        let aspa = (prop::sample::select(vec![1u32, 2, 64496, u32::MAX]), prop::collection::vec(asn(), 0..4))
+        // provider lists: mostly short; now and then around 64 and 256 entries (one PDU of about
+        // 256 octets / 1 KiB) or a few thousand
+        let providers = prop_oneof![
+            40 => prop::collection::vec(asn(), 0..4),
+            3 => (55u32..70, any::<u32>()).prop_map(|(n, b)| (0..n).map(|i| b.wrapping_add(i * 3)).collect::<Vec<u32>>()),
+            2 => (250u32..262, any::<u32>()).prop_map(|(n, b)| (0..n).map(|i| b.wrapping_add(i * 3)).collect::<Vec<u32>>()),
+            1 => (257u32..4000, any::<u32>()).prop_map(|(n, b)| (0..n).map(|i| b.wrapping_add(i * 3)).collect::<Vec<u32>>()),
+        ];
+        let aspa = (prop::sample::select(vec![1u32, 2, 64496, u32::MAX]), providers)
             .prop_map(|(customer, providers)| Item::Aspa { customer, providers }.canonical());
         prop_oneof![3 => v4, 2 => v6, 2 => key, 2 => aspa].boxed()
     }
 
+    /// `n` distinct origins, a share of them IPv4 (PDUs of 20 octets) and the rest IPv6 (32
+    /// octets), in a seed-dependent order: responses of tens of kilobytes whose PDU
+    /// boundaries fall on every offset modulo 4.
+    pub fn many_origins(n: u16, seed: u32, v4_percent: u8) -> Vec<Item> {
+        let mut st = seed as u64 | 1 << 40;
+        (0..n as u32)
+            .map(|i| {
+                st = st.wrapping_mul(6_364_136_223_846_793_005).wrapping_add(1_442_695_040_888_963_407);
+                if ((st >> 33) % 100) < v4_percent as u64 {
+                    Item::V4 { addr: 0x0B00_0000 + (i << 8), len: 24, max: 24, asn: 64496 + (i & 7) }
+                } else {
+                    Item::V6 { hi: 0x2001_0db9_0000_0000 + ((i as u64) << 16), lo: 0, len: 48, max: 48, asn: 64496 + (i & 7) }
+                }
+                .canonical()
+            })
+            .collect()
+    }
+
     pub fn delta() -> BoxedStrategy<Delta> {
         prop_oneof![
-            5 => item().prop_map(Delta::Add),
-            4 => any::<u16>().prop_map(Delta::Remove),
-            2 => (any::<u16>(), prop::collection::vec(asn(), 0..4)).prop_map(|(r, p)| Delta::ReplaceProviders(r, p)),
-            1 => Just(Delta::Clear),
-            1 => prop::collection::vec(item(), 2..12).prop_map(Delta::Bulk),
+            200 => item().prop_map(Delta::Add),
+            160 => any::<u16>().prop_map(Delta::Remove),
+            80 => (any::<u16>(), prop::collection::vec(asn(), 0..4)).prop_map(|(r, p)| Delta::ReplaceProviders(r, p)),
+            40 => Just(Delta::Clear),
+            40 => prop::collection::vec(item(), 2..12).prop_map(Delta::Bulk),
+            // a big table: 64 KiB and more of payload PDUs in one response
+            1 => (prop_oneof![2040u16..2060, 1500u16..4000], any::<u32>(), prop_oneof![Just(0u8), Just(100u8), 0u8..=100])
+                .prop_map(|(n, seed, v4)| Delta::Bulk(many_origins(n, seed, v4))),
         ]
         .boxed()
     }
